@@ -102,13 +102,14 @@ Definition step (s : state) (o : op) : option state :=
       if negb (in_range vs i) then None else
       match vget vs i, vget vs j with
       | None, Some (Some t) =>
-          (* ptr_(new (buf_) T(std::move( *oth.ptr_))); oth.ptr_ = nullptr;   -- no destructor call on *oth.ptr_ *)
+          (* ptr_(new (buf_) T(std::move( *oth.ptr_))); if (oth.ptr_) { oth.ptr_->~T(); oth.ptr_ = nullptr; } *)
           let g := move_from (slot j) g in
           let g := construct KMove (slot i) g in
+          let g := destroy (slot j) g in
           Some (mkSt (vset (vset vs i (Some (Some t))) j (Some None)) g)
       | None, Some None =>
-          (* ptr_(nullptr); oth.ptr_ = nullptr;   (the body of the constructor runs in both cases) *)
-          Some (mkSt (vset (vset vs i (Some None)) j (Some None)) g)
+          (* ptr_(nullptr); oth.ptr_ is null: the body does nothing *)
+          Some (mkSt (vset vs i (Some None)) g)
       | _, _ => None
       end
   | OCopyAssign i j =>
@@ -132,9 +133,10 @@ Definition step (s : state) (o : op) : option state :=
           let g := destroy_if_engaged i vi g in
           match vj with
           | Some t =>
-              (* ptr_ = new (buf_) T(std::move( *oth.ptr_)); oth.ptr_ = nullptr;   -- no destructor call either *)
+              (* ptr_ = new (buf_) T(std::move( *oth.ptr_)); oth.ptr_->~T(); oth.ptr_ = nullptr; *)
               let g := move_from (slot j) g in
               let g := construct KMove (slot i) g in
+              let g := destroy (slot j) g in
               Some (mkSt (vset (vset vs i (Some (Some t))) j (Some None)) g)
           | None => Some (mkSt (vset vs i (Some None)) g)
           end
@@ -177,7 +179,8 @@ Fixpoint trace (s : state) (ops : list op) : option (list state) :=
       end
   end.
 
-(* ------------------------------------------------------------------------------------------ the finding's domain *)
+(* ------------------------------------------------------------------------------------------ moves of engaged values
+   (where OpResult and std::optional legitimately differ: the source reads disengaged / stays engaged) *)
 (* the operation moves from an ENGAGED OpResult (move construction, or move assignment from another variable) *)
 Definition moves_engaged (vs : vars) (o : op) : bool :=
   match o with
